@@ -85,6 +85,12 @@ fn gen_reference(rng: &mut Rng) -> (Vec<Vec<u8>>, usize, usize) {
     if contigs.is_empty() {
         contigs.push(gen::random_bases(rng, k + 10));
     }
+    if rng.chance(1, 40) {
+        // a long contig (more than 64 Ki bases): implementations that cut long contigs into
+        // per-thread slices must not lose or duplicate the k-mers at the cuts
+        let l = rng.usize(66_000, 180_000);
+        contigs.push(gen::random_bases(rng, l));
+    }
     if rng.chance(1, 5) {
         let d = contigs[0].clone(); // a duplicated contig
         contigs.push(d);
@@ -227,6 +233,9 @@ pub fn run(args: &Args, rep: &mut Report) {
                 }
                 if contigs.iter().any(|c| c.len() > k + seg) {
                     rep.nontrivial(h);
+                }
+                if contigs.iter().any(|c| c.len() > 65_536) {
+                    rep.count("references_with_a_contig_longer_than_64k", 1);
                 }
                 if rep.samples.len() < 2 && contigs.len() <= 3 && contigs.iter().all(|c| c.len() < 200) {
                     rep.sample(jobj(&[
